@@ -76,15 +76,22 @@ def main():
                 rc, o = sh("git -C /repo apply %s" % os.path.join(dst, "patch.diff"))
                 if rc == 0:
                     try:
-                        for p in PROPS:
+                        def one(p):
                             # the boosted failing-input search is only run for the property the change targets
                             pre = "" if p == prop else "VERIF_SEARCH=0 "
                             rcc, oc = sh("%s%s/check %s --no-lean" % (pre, VERIF, p), cwd=VERIF, timeout=1200)
                             line = next((l for l in oc.split("\n") if l.startswith("VIOLATION")), "")
                             if rcc == 1:
-                                det[p] = "no-failing-input-found" if "no-failing-input-found" in line else "oracle-replay"
-                            elif rcc != 0:
-                                det[p] = "exit %d" % rcc
+                                return p, ("no-failing-input-found" if "no-failing-input-found" in line
+                                           else "oracle-replay")
+                            if rcc != 0:
+                                return p, "exit %d" % rcc
+                            return p, None
+                        from concurrent.futures import ThreadPoolExecutor
+                        with ThreadPoolExecutor(max_workers=10) as ex:      # all twenty see the same patched /repo
+                            for p, r in ex.map(one, PROPS):
+                                if r is not None:
+                                    det[p] = r
                     finally:
                         sh("git -C /repo checkout -- .")
                 meta["detected_by"] = det
